@@ -379,19 +379,22 @@ func (b *argBuilder) graph(log hclog.Logger, g *graph.Graph, root graph.Vertex) 
 	convs := make([]*Func, len(b.convs))
 	copy(convs, b.convs)
 	if len(b.convGens) > 0 {
-		for _, vertex := range g.Vertices() {
-			// Get a value. If this vertex can't be represented by a value,
-			// then ignore it.
-			value := newValueFromVertex(vertex)
-			if value == nil {
-				continue
-			}
+		// Go through each generator and create the converters. Like the
+		// converters themselves, generators given later take precedence
+		// (the first function of a type to enter the graph stays), so that
+		// one given to Call overrides a default of the Func. A later
+		// generator is shown ALL the values before an earlier one is shown
+		// any: which of them react to which value must not matter.
+		vertices := g.Vertices()
+		for i := len(b.convGens) - 1; i >= 0; i-- {
+			for _, vertex := range vertices {
+				// Get a value. If this vertex can't be represented by a
+				// value, then ignore it.
+				value := newValueFromVertex(vertex)
+				if value == nil {
+					continue
+				}
 
-			// Go through each generator and create the converter. Like the
-			// converters themselves, generators given later take precedence
-			// (the first function of a type to enter the graph stays), so
-			// that one given to Call overrides a default of the Func.
-			for i := len(b.convGens) - 1; i >= 0; i-- {
 				f, err := b.convGens[i](*value)
 				if err != nil {
 					return nil, nil, err
